@@ -2,25 +2,45 @@ package main
 
 // C16 — system entities can only be changed from a system context.
 //
-// Real code under test: a boltz.BaseStore of ext-entities (boltz.BaseExtEntity + name) wired like
-// the fooStore of /repo/boltz/system_entities_test.go (AddExtEntitySymbols, name symbol,
-// NewSystemEntityEnforcementConstraint), Create/Update/DeleteById through boltz.Db.Update with
-// ordinary (boltz.NewMutateContext) and system (GetSystemContext) contexts.
+// Real code under test (exported API only), one universe of four stores on one bolt file:
 //
-// Case line:   H <pool> <tx> <tx> ...
+//	O  "owners"  plain entities (id only); link set `foos` <-> S.peers
+//	S  "foos"    boltz.BaseExtEntity + name + owner: wired like the fooStore of /repo/boltz/system_entities_test.go
+//	             (AddExtEntitySymbols, name symbol), fk `owner` -> O  (AddFkConstraint nullable, CascadeDelete: deleting an
+//	             owner runs S.DeleteById for every foo that refers to it, with the context fkDeleteCascadeConstraint chooses),
+//	             link collection peers <-> O.foos, then NewSystemEntityEnforcementConstraint
+//	C  child store of S (path ["ext"], plain): level string; PersistEntity persists the parent part through
+//	             ctx.GetParentContext() (IsCreate is kept); S.Update is delegated to C when child data exist
+//	             (ChildStoreUpdateHandler), S.DeleteById walks the child store's delete constraints
+//
+// Create/Update/DeleteById/DeleteWhere run through boltz.Db.Update with ordinary (boltz.NewMutateContext) and system
+// (GetSystemContext) contexts, optionally inside a nested Db.Update.
+//
+// Case line:   H <pool>[/<owner pool>] <tx> <tx> ...
 //
 //	pool = comma separated wire ids; tx = <top><mode>!<op>;<op>;...
 //	  top  = O | S : the context handed to Db.Update is ordinary | system
-//	  mode = a | k : the body aborts at the first error | ignores every error except a refused create
-//	op = fields joined by ':' ; ctx = o | s (s: the operation uses ctx.GetSystemContext())
-//	  c:ctx:id:flag:name:mig:cAt:uAt:tag          Create  &ent{IsSystem: flag, Name: name, Migrate: mig, CreatedAt: cAt, UpdatedAt: uAt, Tags: {"k": tag}}
-//	  u:ctx:id:flag:name:checker:mig:cAt:uAt:tag  Update  checker = n (nil) | comma list of field names (may be empty: "-")
-//	      mig = t|f; cAt, uAt = z (zero time) | unix seconds; tag = wire string | ~ (nil map)
-//	  d:ctx:id                      DeleteById
-//	  r:id                          FindById inside the transaction
+//	  mode = a | k : the body aborts at the first error | ignores the errors that leave the open transaction untouched
+//	         (not found, already exists, blank id, refused update, refused direct delete) and commits
+//	op = fields joined by ':' ; ctx = o | s | n | m
+//	      o: the transaction's context; s: ctx.GetSystemContext();
+//	      n: the operation runs inside a nested db.Update(ctx.GetSystemContext(), ...)
+//	      m: ctx.GetSystemContext() is derived (and dropped), then the operation runs in a nested db.Update(ctx, ...)
+//	  c:ctx:id:flag:name:mig:cAt:uAt:tag[:owner]          S.Create  &ent{IsSystem: flag, Name: name, Migrate: mig, CreatedAt: cAt, UpdatedAt: uAt, Tags: {"k": tag}, Owner: owner}
+//	  u:ctx:id:flag:name:checker:mig:cAt:uAt:tag[:owner]  S.Update  checker = n (nil) | comma list of field names (may be empty: "-")
+//	      mig = t|f; cAt, uAt = z (zero time) | unix seconds; tag = wire string | ~ (nil map); owner = wire id ("-" = none)
+//	  d:ctx:id                                            S.DeleteById
+//	  C:ctx:id:flag:name:mig:cAt:uAt:tag:owner:level      C.Create (child store; the parent part may already exist)
+//	  U:ctx:id:flag:name:checker:mig:cAt:uAt:tag:owner:level   C.Update
+//	  D:ctx:id                                            C.DeleteById
+//	  oc:ctx:id | od:ctx:id                               O.Create | O.DeleteById (cascades to the referring foos)
+//	  w:ctx:T | w:ctx:n:<name> | w:ctx:o:<owner> | w:ctx:s:<t|f>   S.DeleteWhere(true | name = | owner = | isSystem =)
+//	  l:<foo>:<owner> | x:<foo>:<owner>                   peers link collection: AddLinks | RemoveLinks (bare *bbolt.Tx, no context)
+//	  r:id                                                FindById inside the transaction
 //
 // Output per transaction: `<op results joined by ';'>|<view of the uncommitted state after the aborting failure>|<view after the tx>`
-// view = for every pool id `<id>=<exists>/<IsSystemEntity>/<name>/<tag k or ~>/<createdAt>/<updatedAt>/<raw isSystem key: - absent, t, f, ?>;`
+// view = for every pool id `<id>=<exists>/<IsSystemEntity>/<name>/<tag k or ~>/<createdAt>/<updatedAt>/<owner>/<level or ~>/<peers>/<raw isSystem key: - absent, t, f, ?>;`
+// then for every owner pool id `@<id>=<t|f>;`
 // a timestamp is printed as z (zero time), its unix seconds when it is one of the values the generator hands out, else `now`
 import (
 	"bufio"
@@ -29,6 +49,7 @@ import (
 	"fmt"
 	"os"
 	"path/filepath"
+	"sort"
 	"strconv"
 	"strings"
 	"time"
@@ -44,13 +65,27 @@ func init() {
 }
 
 const (
-	c16Root = "u"
-	c16Type = "foos"
+	c16Root      = "u"
+	c16Type      = "foos"
+	c16OwnerType = "owners"
 )
+
+type c16Owner struct{ Id string }
+
+func (e *c16Owner) GetId() string         { return e.Id }
+func (e *c16Owner) SetId(id string)       { e.Id = id }
+func (e *c16Owner) GetEntityType() string { return c16OwnerType }
+
+type c16OwnerStrategy struct{}
+
+func (c16OwnerStrategy) NewEntity() *c16Owner                           { return new(c16Owner) }
+func (c16OwnerStrategy) FillEntity(*c16Owner, *boltz.TypedBucket)       {}
+func (c16OwnerStrategy) PersistEntity(*c16Owner, *boltz.PersistContext) {}
 
 type c16Ent struct {
 	boltz.BaseExtEntity
-	Name string
+	Name  string
+	Owner string
 }
 
 func (e *c16Ent) GetEntityType() string { return c16Type }
@@ -61,15 +96,39 @@ func (c16Strategy) NewEntity() *c16Ent { return new(c16Ent) }
 func (c16Strategy) FillEntity(e *c16Ent, b *boltz.TypedBucket) {
 	e.LoadBaseValues(b)
 	e.Name = b.GetStringOrError("name")
+	e.Owner = b.GetStringWithDefault("owner", "")
 }
 func (c16Strategy) PersistEntity(e *c16Ent, ctx *boltz.PersistContext) {
 	e.SetBaseValues(ctx)
 	ctx.SetString("name", e.Name)
+	ctx.SetString("owner", e.Owner)
+}
+
+// child (extension) entity: the parent part is persisted through ctx.GetParentContext()
+type c16Kid struct {
+	c16Ent
+	Level string
+}
+
+type c16KidStrategy struct{ parent *boltz.BaseStore[*c16Ent] }
+
+func (s *c16KidStrategy) NewEntity() *c16Kid { return new(c16Kid) }
+func (s *c16KidStrategy) FillEntity(e *c16Kid, b *boltz.TypedBucket) {
+	_, err := s.parent.LoadEntity(b.Tx(), e.Id, &e.c16Ent)
+	b.SetError(err)
+	e.Level = b.GetStringWithDefault("level", "")
+}
+func (s *c16KidStrategy) PersistEntity(e *c16Kid, ctx *boltz.PersistContext) {
+	s.parent.GetEntityStrategy().PersistEntity(&e.c16Ent, ctx.GetParentContext())
+	ctx.SetString("level", e.Level)
 }
 
 type c16Env struct {
-	db    *boltz.DbImpl
-	store *boltz.BaseStore[*c16Ent]
+	db     *boltz.DbImpl
+	owners *boltz.BaseStore[*c16Owner]
+	store  *boltz.BaseStore[*c16Ent]
+	kids   *boltz.BaseStore[*c16Kid]
+	peers  boltz.LinkCollection
 }
 
 func c16Open() *c16Env {
@@ -83,20 +142,70 @@ func c16Open() *c16Env {
 	}
 	// the file stays usable through bbolt's open descriptor; nothing is left behind
 	_ = os.RemoveAll(dir)
-	def := boltz.StoreDefinition[*c16Ent]{
-		EntityType:     c16Type,
-		EntityStrategy: c16Strategy{},
+
+	owners := boltz.NewBaseStore(boltz.StoreDefinition[*c16Owner]{
+		EntityType:     c16OwnerType,
+		EntityStrategy: c16OwnerStrategy{},
 		BasePath:       []string{c16Root},
 		EntityNotFoundF: func(id string) error {
-			return boltz.NewNotFoundError(boltz.GetSingularEntityType(c16Type), "id", id)
+			return boltz.NewNotFoundError(boltz.GetSingularEntityType(c16OwnerType), "id", id)
 		},
+	})
+	owners.InitImpl(owners)
+
+	notFound := func(id string) error {
+		return boltz.NewNotFoundError(boltz.GetSingularEntityType(c16Type), "id", id)
 	}
-	st := boltz.NewBaseStore(def)
+	st := boltz.NewBaseStore(boltz.StoreDefinition[*c16Ent]{
+		EntityType:      c16Type,
+		EntityStrategy:  c16Strategy{},
+		BasePath:        []string{c16Root},
+		EntityNotFoundF: notFound,
+	})
 	st.InitImpl(st)
+
+	kids := boltz.NewBaseStore(boltz.StoreDefinition[*c16Kid]{
+		EntityStrategy: &c16KidStrategy{parent: st},
+		BasePath:       []string{"ext"},
+		Parent:         st,
+		ParentMapper: func(entity boltz.Entity) boltz.Entity {
+			if k, ok := entity.(*c16Kid); ok {
+				return &k.c16Ent
+			}
+			return entity
+		},
+		EntityNotFoundF: notFound,
+	})
+	kids.InitImpl(kids)
+	// an update through S of an entity that has child data is handed to the child store (its stored level is kept)
+	st.RegisterChildStoreStrategy(&boltz.ChildStoreUpdateHandler[*c16Ent, *c16Kid]{
+		Store: kids,
+		Mapper: func(ctx boltz.MutateContext, parent *c16Ent) (*c16Kid, bool) {
+			if !kids.IsEntityPresent(ctx.Tx(), parent.Id) {
+				return nil, false
+			}
+			child, found, _ := kids.FindById(ctx.Tx(), parent.Id)
+			if !found || child == nil {
+				return nil, false
+			}
+			child.c16Ent = *parent
+			return child, true
+		},
+	})
+
+	owners.AddIdSymbol("id", ast.NodeTypeString)
 	st.AddExtEntitySymbols()
 	st.AddSymbol("name", ast.NodeTypeString)
+	ownerSym := st.AddFkSymbol("owner", owners)
+	st.AddFkConstraint(ownerSym, true, boltz.CascadeDelete)
+	peersSym := st.AddFkSetSymbol("peers", owners)
+	foosSym := owners.AddFkSetSymbol("foos", st)
+	peers := st.AddLinkCollection(peersSym, foosSym)
+	owners.AddLinkCollection(foosSym, peersSym)
 	st.AddConstraint(boltz.NewSystemEntityEnforcementConstraint(st))
-	return &c16Env{db: db, store: st}
+	st.GrantSymbols(kids)
+	kids.AddSymbol("level", ast.NodeTypeString)
+	return &c16Env{db: db, owners: owners, store: st, kids: kids, peers: peers}
 }
 
 func (e *c16Env) wipe() {
@@ -141,8 +250,12 @@ func c16Err(err error) string {
 			return "!cannot-delete(" + strings.ReplaceAll(msg, " ", "_") + ")"
 		}
 	}
+	var nf *boltz.RecordNotFoundError
 	switch {
-	case boltz.IsErrNotFoundErr(err):
+	case errors.As(err, &nf):
+		if nf.EntityType == boltz.GetSingularEntityType(c16OwnerType) && nf.Field == "id" {
+			return "!noOwner"
+		}
 		return "!notFound"
 	case strings.Contains(msg, "cannot create system"):
 		return "!sysCreate"
@@ -150,8 +263,20 @@ func c16Err(err error) string {
 		return "!exists"
 	case strings.Contains(msg, "blank id"):
 		return "!blank"
+	case strings.HasPrefix(msg, c16Type+" not found with id"):
+		// linkCollectionImpl.getFieldBucket: the entity whose links are edited does not exist
+		return "!notFound"
 	}
 	return "!other(" + strings.ReplaceAll(msg, " ", "_") + ")"
+}
+
+// c16Ignorable: the failures a keep-going body carries on after (they leave the open transaction untouched)
+func c16Ignorable(r string) bool {
+	switch r {
+	case "!notFound", "!exists", "!blank", "!sysUpdate", "!sysDelete":
+		return true
+	}
+	return false
 }
 
 type c16Checker map[string]struct{}
@@ -192,10 +317,10 @@ func c16ShowTime(t time.Time) string {
 	return "now"
 }
 
-// the whole in-memory entity: every field of BaseExtEntity and the name
-func c16Entity(id, flag, name, mig, cAt, uAt, tag string) *c16Ent {
+// the whole in-memory entity: every field of BaseExtEntity, the name and the owner
+func c16Entity(id, flag, name, mig, cAt, uAt, tag, owner string) *c16Ent {
 	ent := &c16Ent{BaseExtEntity: boltz.BaseExtEntity{Id: fromWire(id), IsSystem: flag == "t", Migrate: mig == "t",
-		CreatedAt: c16Time(cAt), UpdatedAt: c16Time(uAt)}, Name: fromWire(name)}
+		CreatedAt: c16Time(cAt), UpdatedAt: c16Time(uAt)}, Name: fromWire(name), Owner: fromWire(owner)}
 	if tag != "~" {
 		ent.Tags = map[string]interface{}{"k": fromWire(tag)}
 	}
@@ -212,33 +337,101 @@ func c16Tag(ent *c16Ent) string {
 	return "~"
 }
 
+func c16MkChecker(f string) boltz.FieldChecker {
+	if f == "n" {
+		return nil
+	}
+	c := c16Checker{}
+	if f != "-" {
+		for _, n := range strings.Split(f, ",") {
+			c[n] = struct{}{}
+		}
+	}
+	return c
+}
+
+func c16Opt(f []string, i int) string {
+	if i < len(f) {
+		return f[i]
+	}
+	return "-"
+}
+
+// the operation's context kind decides how the store call is issued
+func (e *c16Env) with(top boltz.MutateContext, kind string, f func(ctx boltz.MutateContext) error) error {
+	switch kind {
+	case "o":
+		return f(top)
+	case "s":
+		return f(top.GetSystemContext())
+	case "n":
+		return e.db.Update(top.GetSystemContext(), f)
+	case "m":
+		sys := top.GetSystemContext()
+		_ = sys.IsSystemContext()
+		return e.db.Update(top, f)
+	}
+	panic("bad context kind " + kind)
+}
+
 func (e *c16Env) op(top boltz.MutateContext, op string) string {
 	f := strings.Split(op, ":")
-	ctxOf := func(k string) boltz.MutateContext {
-		if k == "s" {
-			return top.GetSystemContext()
-		}
-		return top
-	}
 	switch f[0] {
 	case "c":
-		ent := c16Entity(f[2], f[3], f[4], f[5], f[6], f[7], f[8])
-		return c16Err(e.store.Create(ctxOf(f[1]), ent))
+		ent := c16Entity(f[2], f[3], f[4], f[5], f[6], f[7], f[8], c16Opt(f, 9))
+		return c16Err(e.with(top, f[1], func(ctx boltz.MutateContext) error { return e.store.Create(ctx, ent) }))
 	case "u":
-		ent := c16Entity(f[2], f[3], f[4], f[6], f[7], f[8], f[9])
-		var checker boltz.FieldChecker
-		if f[5] != "n" {
-			c := c16Checker{}
-			if f[5] != "-" {
-				for _, n := range strings.Split(f[5], ",") {
-					c[n] = struct{}{}
-				}
-			}
-			checker = c
-		}
-		return c16Err(e.store.Update(ctxOf(f[1]), ent, checker))
+		ent := c16Entity(f[2], f[3], f[4], f[6], f[7], f[8], f[9], c16Opt(f, 10))
+		checker := c16MkChecker(f[5])
+		return c16Err(e.with(top, f[1], func(ctx boltz.MutateContext) error { return e.store.Update(ctx, ent, checker) }))
 	case "d":
-		return c16Err(e.store.DeleteById(ctxOf(f[1]), fromWire(f[2])))
+		return c16Err(e.with(top, f[1], func(ctx boltz.MutateContext) error { return e.store.DeleteById(ctx, fromWire(f[2])) }))
+	case "C":
+		kid := &c16Kid{c16Ent: *c16Entity(f[2], f[3], f[4], f[5], f[6], f[7], f[8], f[9]), Level: fromWire(f[10])}
+		return c16Err(e.with(top, f[1], func(ctx boltz.MutateContext) error { return e.kids.Create(ctx, kid) }))
+	case "U":
+		kid := &c16Kid{c16Ent: *c16Entity(f[2], f[3], f[4], f[6], f[7], f[8], f[9], f[10]), Level: fromWire(f[11])}
+		checker := c16MkChecker(f[5])
+		return c16Err(e.with(top, f[1], func(ctx boltz.MutateContext) error { return e.kids.Update(ctx, kid, checker) }))
+	case "D":
+		return c16Err(e.with(top, f[1], func(ctx boltz.MutateContext) error { return e.kids.DeleteById(ctx, fromWire(f[2])) }))
+	case "oc":
+		return c16Err(e.with(top, f[1], func(ctx boltz.MutateContext) error {
+			return e.owners.Create(ctx, &c16Owner{Id: fromWire(f[2])})
+		}))
+	case "od":
+		r := c16Err(e.with(top, f[1], func(ctx boltz.MutateContext) error { return e.owners.DeleteById(ctx, fromWire(f[2])) }))
+		if r == "!noOwner" {
+			// entityNotFoundF of the owners store: the owner itself does not exist
+			return "!notFound"
+		}
+		if strings.HasPrefix(r, "!") {
+			return "!via:" + r[1:]
+		}
+		return r
+	case "w":
+		var q string
+		switch f[2] {
+		case "T":
+			q = "true"
+		case "n":
+			q = fmt.Sprintf(`name = "%s"`, fromWire(f[3]))
+		case "o":
+			q = fmt.Sprintf(`owner = "%s"`, fromWire(f[3]))
+		case "s":
+			q = "isSystem = " + map[string]string{"t": "true", "f": "false"}[f[3]]
+		default:
+			panic("bad query " + op)
+		}
+		r := c16Err(e.with(top, f[1], func(ctx boltz.MutateContext) error { return e.store.DeleteWhere(ctx, q) }))
+		if strings.HasPrefix(r, "!") {
+			return "!via:" + r[1:]
+		}
+		return r
+	case "l":
+		return c16Err(e.peers.AddLinks(top.Tx(), fromWire(f[1]), fromWire(f[2])))
+	case "x":
+		return c16Err(e.peers.RemoveLinks(top.Tx(), fromWire(f[1]), fromWire(f[2])))
 	case "r":
 		ent, found, err := e.store.FindById(top.Tx(), fromWire(f[1]))
 		if err != nil {
@@ -252,7 +445,7 @@ func (e *c16Env) op(top boltz.MutateContext, op string) string {
 	panic("bad op " + op)
 }
 
-func (e *c16Env) view(tx *bbolt.Tx, pool []string) string {
+func (e *c16Env) view(tx *bbolt.Tx, pool, opool []string) string {
 	var b strings.Builder
 	for _, id := range pool {
 		ent, found, err := e.store.FindById(tx, id)
@@ -261,7 +454,7 @@ func (e *c16Env) view(tx *bbolt.Tx, pool []string) string {
 		case err != nil:
 			b.WriteString("error")
 		case !found:
-			b.WriteString("f//////-")
+			b.WriteString("f/////////-")
 		default:
 			raw := "-"
 			if bucket := e.store.GetEntityBucket(tx, []byte(id)); bucket != nil {
@@ -276,31 +469,70 @@ func (e *c16Env) view(tx *bbolt.Tx, pool []string) string {
 					}
 				}
 			}
+			level := "~"
+			if e.kids.IsEntityPresent(tx, id) {
+				kid, kfound, kerr := e.kids.FindById(tx, id)
+				switch {
+				case kerr != nil || !kfound:
+					level = "?"
+				case kid.IsSystemEntity() != ent.IsSystemEntity() || kid.Name != ent.Name:
+					level = "?mismatch"
+				default:
+					level = toWire(kid.Level)
+				}
+			}
+			peers := e.store.GetRelatedEntitiesIdList(tx, id, "peers")
+			sort.Strings(peers)
+			ps := "~"
+			if len(peers) > 0 {
+				var w []string
+				for _, p := range peers {
+					w = append(w, toWire(p))
+				}
+				ps = strings.Join(w, ",")
+			}
 			b.WriteString("t/" + c16B(ent.IsSystemEntity()) + "/" + toWire(ent.Name) + "/" + c16Tag(ent) + "/" +
-				c16ShowTime(ent.CreatedAt) + "/" + c16ShowTime(ent.UpdatedAt) + "/" + raw)
+				c16ShowTime(ent.CreatedAt) + "/" + c16ShowTime(ent.UpdatedAt) + "/" + toWire(ent.Owner) + "/" + level + "/" + ps + "/" + raw)
 		}
 		b.WriteString(";")
 	}
-	// entities outside the pool would be a harness/generator mistake: make them visible
-	if eb := e.store.GetEntitiesBucket(tx); eb != nil {
+	for _, id := range opool {
+		b.WriteString("@" + toWire(id) + "=" + c16B(e.owners.IsEntityPresent(tx, id)) + ";")
+	}
+	// entities outside the pools would be a harness/generator mistake: make them visible
+	extra := func(bucket *boltz.TypedBucket, pool []string) int {
 		n := 0
-		_ = eb.ForEach(func(k, v []byte) error {
-			known := false
-			for _, id := range pool {
-				if id == string(k) {
-					known = true
+		if bucket != nil {
+			_ = bucket.ForEach(func(k, v []byte) error {
+				known := false
+				for _, id := range pool {
+					if id == string(k) {
+						known = true
+					}
 				}
-			}
-			if !known {
-				n++
-			}
-			return nil
-		})
-		if n > 0 {
-			fmt.Fprintf(&b, "EXTRA:%d", n)
+				if !known {
+					n++
+				}
+				return nil
+			})
 		}
+		return n
+	}
+	if n := extra(e.store.GetEntitiesBucket(tx), pool) + extra(e.owners.GetEntitiesBucket(tx), opool); n > 0 {
+		fmt.Fprintf(&b, "EXTRA:%d", n)
 	}
 	return b.String()
+}
+
+func c16Pool(s string) []string {
+	var pool []string
+	if s == "" {
+		return nil
+	}
+	for _, w := range strings.Split(s, ",") {
+		pool = append(pool, fromWire(w))
+	}
+	return pool
 }
 
 func c16Exec(line string) string {
@@ -310,10 +542,8 @@ func c16Exec(line string) string {
 	e := c16env
 	e.wipe()
 	f := fields(line)
-	var pool []string
-	for _, w := range strings.Split(f[1], ",") {
-		pool = append(pool, fromWire(w))
-	}
+	ps, os_, _ := strings.Cut(f[1], "/")
+	pool, opool := c16Pool(ps), c16Pool(os_)
 	var out []string
 	for _, tx := range f[2:] {
 		head, body, _ := strings.Cut(tx, "!")
@@ -329,8 +559,8 @@ func c16Exec(line string) string {
 			for _, op := range ops {
 				r := e.op(ctx, op)
 				results = append(results, r)
-				if strings.HasPrefix(r, "!") && !(keepGoing && r != "!sysCreate") {
-					partial = e.view(ctx.Tx(), pool)
+				if strings.HasPrefix(r, "!") && !(keepGoing && c16Ignorable(r)) {
+					partial = e.view(ctx.Tx(), pool, opool)
 					return fmt.Errorf("op failed")
 				}
 			}
@@ -341,7 +571,7 @@ func c16Exec(line string) string {
 		}
 		var after string
 		_ = e.db.View(func(tx *bbolt.Tx) error {
-			after = e.view(tx, pool)
+			after = e.view(tx, pool, opool)
 			return nil
 		})
 		out = append(out, strings.Join(results, ";")+"|"+partial+"|"+after)
@@ -352,17 +582,22 @@ func c16Exec(line string) string {
 // ---------------------------------------------------------------------------- generator
 
 var c16Ids = []string{"a", "b", "c", "sys", "a\x00", "é"}
+var c16OwnerIds = []string{"o1", "o2", "o\"3", "a"}
 var c16Names = []string{"n0", "n1", "n2", "", "x y", "true"}
 var c16Tags = []string{"~", "~", "t0", "t1", ""}
+var c16Levels = []string{"l0", "l1", ""}
 var c16Checkers = []string{"n", "n", "name", "isSystem", "name,isSystem", "-", "tags", "name,tags", "isSystem,tags",
-	"createdAt,updatedAt,isSystem", "name,tags,isSystem,createdAt,updatedAt"}
+	"createdAt,updatedAt,isSystem", "name,tags,isSystem,createdAt,updatedAt", "owner", "name,owner,level", "level",
+	"isSystem,owner", "name,tags,owner,level,isSystem,createdAt,updatedAt"}
+var c16CtxKinds = []string{"o", "s", "n", "m"}
 
 func c16Gen(tier string, seed uint64, out *bufio.Writer) {
 	r := newRng(seed)
 	c16Exhaustive(out)
-	n := 2000
+	c16Indirect(out)
+	n := 2500
 	if tier == "thorough" {
-		n = 40000
+		n = 50000
 	}
 	for i := 0; i < n; i++ {
 		c16History(r, out)
@@ -410,6 +645,99 @@ func c16Exhaustive(out *bufio.Writer) {
 	}
 }
 
+// the indirect paths, exhaustively over small shapes: every way an operation on ANOTHER entity or through ANOTHER
+// store reaches an entity of the constrained store, from every kind of context, followed by direct attempts from an
+// ordinary context (is the entity still protected?) and a read-back
+func c16Indirect(out *bufio.Writer) {
+	a, b, c := toWire("a"), toWire("b"), toWire("c")
+	o1, o2 := toWire("o1"), toWire("o2")
+	n0, n1 := toWire("n0"), toWire("n1")
+	l0, l1 := toWire("l0"), toWire("l1")
+	flags := []string{"t", "f"}
+	tops := []string{"O", "S"}
+	modes := []string{"a", "k"}
+	ent := func(ctx, id, flag, name, owner string) string {
+		return "c:" + ctx + ":" + id + ":" + flag + ":" + name + ":" + c16Rest("f", "z", "z", "~") + ":" + owner
+	}
+	probe := func(id string) string {
+		return "Ok!u:o:" + id + ":f:" + toWire("n2") + ":n:" + c16Rest("f", "z", "z", "~") + ":-;d:o:" + id + ";r:" + id
+	}
+	pools := a + "," + b + "," + c + "/" + o1 + "," + o2
+
+	// (1) cascade: owner o1 with referrers a, b (c refers to o2 or nothing); O.DeleteById(o1) from every context
+	for _, fa := range flags {
+		for _, fb := range flags {
+			for _, fc := range flags {
+				setup := "Sa!oc:o:" + o1 + ";oc:o:" + o2 + ";" + ent("s", a, fa, n0, o1) + ";" + ent("s", b, fb, n1, o1) + ";" + ent("s", c, fc, n0, o2) + ";l:" + a + ":" + o1 + ";l:" + c + ":" + o1
+				for _, top := range tops {
+					for _, mode := range modes {
+						for _, ctx := range c16CtxKinds {
+							fmt.Fprintf(out, "H %s %s %s%s!od:%s:%s;od:%s:%s %s\n", pools, setup, top, mode, ctx, o1, ctx, o2, probe(a))
+						}
+					}
+				}
+				// the cascade in the same transaction as other work, and deletes by query
+				for _, ctx := range c16CtxKinds {
+					for _, q := range []string{"T", "n:" + n0, "n:" + n1, "o:" + o1, "o:" + o2, "s:t", "s:f"} {
+						fmt.Fprintf(out, "H %s %s Oa!w:%s:%s %s\n", pools, setup, ctx, q, probe(c))
+						fmt.Fprintf(out, "H %s %s Ok!d:o:%s;w:%s:%s;r:%s Oa!r:%s\n", pools, setup, a, ctx, q, b, a)
+					}
+				}
+			}
+		}
+	}
+
+	// (2) the child store: parent created (or not) with / without the flag, then Create / Update / DeleteById
+	// through the child store from every context
+	pool1 := a + "/" + o1
+	for _, pflag := range []string{"t", "f", "-"} { // "-": no parent yet
+		for _, withKid := range []bool{false, true} {
+			if pflag == "-" && withKid {
+				continue
+			}
+			setup := "Sa!oc:o:" + o1
+			if pflag != "-" {
+				setup += ";" + "c:s:" + a + ":" + pflag + ":" + n0 + ":" + c16Rest("t", "1000", "2000", "t0") + ":" + o1
+			}
+			if withKid {
+				setup += ";C:s:" + a + ":f:" + n0 + ":" + c16Rest("t", "1000", "2000", "t0") + ":" + o1 + ":" + l0
+			}
+			var seconds []string
+			for _, ctx := range c16CtxKinds {
+				seconds = append(seconds, "D:"+ctx+":"+a)
+				for _, fl := range flags {
+					for _, mig := range flags {
+						for _, own := range []string{"-", o1, o2} {
+							seconds = append(seconds, "C:"+ctx+":"+a+":"+fl+":"+n1+":"+c16Rest(mig, "3000", "3000", "t1")+":"+own+":"+l1)
+						}
+						for _, ch := range []string{"n", "level", "name,isSystem,level", "-"} {
+							seconds = append(seconds, "U:"+ctx+":"+a+":"+fl+":"+n1+":"+ch+":"+c16Rest(mig, "3000", "z", "t1")+":"+o1+":"+l1)
+						}
+					}
+				}
+			}
+			for _, snd := range seconds {
+				for _, top := range tops {
+					for _, mode := range modes {
+						fmt.Fprintf(out, "H %s %s %s%s!%s %s\n", pool1, setup, top, mode, snd, probe(a))
+					}
+				}
+			}
+		}
+	}
+
+	// (3) links: no context is involved; deleting the far end unlinks
+	for _, fa := range flags {
+		setup := "Sa!oc:o:" + o1 + ";" + ent("s", a, fa, n0, "-")
+		for _, top := range tops {
+			for _, mode := range modes {
+				fmt.Fprintf(out, "H %s %s %s%s!l:%s:%s;l:%s:%s;x:%s:%s;l:%s:%s %s%s!od:o:%s %s\n", pool1, setup, top, mode, a, o1, a, o2, b, o1, a, o1, top, mode, o1, probe(a))
+				fmt.Fprintf(out, "H %s %s %s%s!l:%s:%s;x:%s:%s;x:%s:%s;d:o:%s %s\n", pool1, setup, top, mode, a, o1, a, o1, a, o2, a, probe(a))
+			}
+		}
+	}
+}
+
 func c16History(r *rng, out *bufio.Writer) {
 	np := 2 + r.intn(3)
 	seen := map[string]bool{}
@@ -425,8 +753,37 @@ func c16History(r *rng, out *bufio.Writer) {
 	for _, p := range pool {
 		wp = append(wp, toWire(p))
 	}
+	no := 1 + r.intn(3)
+	seen = map[string]bool{}
+	var opool, wo []string
+	for len(opool) < no {
+		id := pick(r, c16OwnerIds)
+		if !seen[id] {
+			seen[id] = true
+			opool = append(opool, id)
+			wo = append(wo, toWire(id))
+		}
+	}
+	owner := func() string {
+		if r.chance(2, 5) {
+			return "-"
+		}
+		return toWire(pick(r, opool))
+	}
 	ntx := 2 + r.intn(6)
 	var txs []string
+	// most histories start by creating some owners from a system context, so that references have something to point at
+	if r.chance(4, 5) {
+		var ops []string
+		for _, o := range opool {
+			if r.chance(3, 4) {
+				ops = append(ops, "oc:o:"+toWire(o))
+			}
+		}
+		if len(ops) > 0 {
+			txs = append(txs, "Sa!"+strings.Join(ops, ";"))
+		}
+	}
 	for t := 0; t < ntx; t++ {
 		top := "O"
 		if r.chance(1, 4) {
@@ -441,8 +798,13 @@ func c16History(r *rng, out *bufio.Writer) {
 		for o := 0; o < nops; o++ {
 			id := toWire(pick(r, pool))
 			ctx := "o"
-			if top == "S" || r.chance(2, 5) {
+			switch w := r.intn(20); {
+			case w < 5:
 				ctx = "s"
+			case w < 8:
+				ctx = "n"
+			case w < 11:
+				ctx = "m"
 			}
 			flag := "f"
 			if r.chance(1, 2) {
@@ -455,19 +817,52 @@ func c16History(r *rng, out *bufio.Writer) {
 			rest := c16Rest(mig, pick(r, c16Stamps), pick(r, c16Stamps), pick(r, c16Tags))
 			name := toWire(pick(r, c16Names))
 			switch w := r.intn(100); {
-			case w < 35:
-				ops = append(ops, "c:"+ctx+":"+id+":"+flag+":"+name+":"+rest)
-			case w < 36:
+			case w < 20:
+				ops = append(ops, "c:"+ctx+":"+id+":"+flag+":"+name+":"+rest+":"+owner())
+			case w < 21:
 				ops = append(ops, "c:"+ctx+":-:"+flag+":"+name+":"+rest)
-			case w < 70:
-				ops = append(ops, "u:"+ctx+":"+id+":"+flag+":"+name+":"+pick(r, c16Checkers)+":"+rest)
-			case w < 90:
+			case w < 33:
+				ops = append(ops, "C:"+ctx+":"+id+":"+flag+":"+name+":"+rest+":"+owner()+":"+toWire(pick(r, c16Levels)))
+			case w < 34:
+				ops = append(ops, "C:"+ctx+":-:"+flag+":"+name+":"+rest+":-:-")
+			case w < 48:
+				ops = append(ops, "u:"+ctx+":"+id+":"+flag+":"+name+":"+pick(r, c16Checkers)+":"+rest+":"+owner())
+			case w < 56:
+				ops = append(ops, "U:"+ctx+":"+id+":"+flag+":"+name+":"+pick(r, c16Checkers)+":"+rest+":"+owner()+":"+toWire(pick(r, c16Levels)))
+			case w < 64:
 				ops = append(ops, "d:"+ctx+":"+id)
+			case w < 68:
+				ops = append(ops, "D:"+ctx+":"+id)
+			case w < 74:
+				ops = append(ops, "oc:"+ctx+":"+toWire(pick(r, opool)))
+			case w < 84:
+				ops = append(ops, "od:"+ctx+":"+toWire(pick(r, opool)))
+			case w < 90:
+				switch r.intn(6) {
+				case 0:
+					ops = append(ops, "w:"+ctx+":T")
+				case 1, 2:
+					ops = append(ops, "w:"+ctx+":n:"+name)
+				case 3:
+					o := pick(r, opool)
+					if strings.ContainsAny(o, "\"\\") {
+						o = "o1"
+					}
+					ops = append(ops, "w:"+ctx+":o:"+toWire(o))
+				case 4:
+					ops = append(ops, "w:"+ctx+":s:t")
+				default:
+					ops = append(ops, "w:"+ctx+":s:f")
+				}
+			case w < 94:
+				ops = append(ops, "l:"+id+":"+toWire(pick(r, opool)))
+			case w < 96:
+				ops = append(ops, "x:"+id+":"+toWire(pick(r, opool)))
 			default:
 				ops = append(ops, "r:"+id)
 			}
 		}
 		txs = append(txs, top+mode+"!"+strings.Join(ops, ";"))
 	}
-	fmt.Fprintf(out, "H %s %s\n", strings.Join(wp, ","), strings.Join(txs, " "))
+	fmt.Fprintf(out, "H %s/%s %s\n", strings.Join(wp, ","), strings.Join(wo, ","), strings.Join(txs, " "))
 }
